@@ -89,7 +89,7 @@ def segmentations(n):
 DELIMS = [b"-", b"--", b"ab", b"aba", "é".encode(), b"\t", b","]
 FILLERS = ["<", ">", "x", "{{", "}}", "\\n", " ", "é", "-", "z", "-z", "-mjz", "Ż", "Ž", "ĺ", "Ĭ", "Ľ", "ĭ", "ı", "Ŝ"]   # the last ones look like flags when the text starts with them
 # (Ż Ž ĺ Ĭ Ľ ĭ ı Ŝ: U+017B U+017D U+013A U+012C U+013D U+012D U+0131 U+015C — their code points end in the bytes of { } : , = - 1 \\: a `char as u8` comparison takes them for syntax)
-FALLBACKS = ["", "F", "a-b", "é", " ", "x ", " y", "n=a", "==", "Ľ"]
+FALLBACKS = ["", "F", "a-b", "é", " ", "x ", " y", "n=a", "==", "Ľ", "C:\\tmp\\new", "a\\nb"]          # the last two: backslash-t / backslash-n are escapes in format TEXT only
 
 
 def alphabet_for(d, z, rich=True):
@@ -220,4 +220,8 @@ def rand_input(rng, d, z, nrec=None, rich=True):
     data = eol.join(recs)
     if rng.random() < 0.7:
         data += eol
+    if rng.random() < 0.05:
+        # a magic number at the very start of the input (byte order marks, #!, gzip …) is data like any other; when the alphabet must stay
+        # valid UTF-8 (not rich) only U+FEFF is used
+        data = (rng.choice([b"\xef\xbb\xbf", b"\xef\xbb\xbf", b"\xff\xfe", b"\xfe\xff", b"#!", b"\x1f\x8b"]) if rich else b"\xef\xbb\xbf") + data
     return data
